@@ -4,3 +4,11 @@ import Emitter.Props.C07
 #print axioms Emitter.C07.replay_exact
 #print axioms Emitter.C07.last_n
 #print axioms Emitter.C07.will_fires_iff
+#print axioms Emitter.C07.step_refines
+#print axioms Emitter.C07.store_history_refines
+#print axioms Emitter.C07.store_history_exact
+#print axioms Emitter.C07.replay_history_exact
+#print axioms Emitter.C07.unstored_never_replayed
+#print axioms Emitter.C07.replay_sublist
+#print axioms Emitter.C07.replay_zero
+#print axioms Emitter.C07.replay_all
